@@ -1210,7 +1210,7 @@ def run(ctx):
                 "shared / aliased other parameters, real fits through GridSearch.fit/_fit with a permuted completion order and a "
                 "likelihood that is a function of the cell, GridSearchResult accessors, ResultBuilder arrival orders with re-delivery, "
                 "sensitivity lattices / unit cells with limit_scale / sorting / real Sensitivity.run with perturb priors created out "
-                "of path order, and HISTORIES: one GridSearch / Sensitivity object used for several make_lists / make_arguments / "
+                "of path order and priors shared by several attributes (fewer distinct priors than attributes holding one), grid priors on a second path / named twice, and HISTORIES: one GridSearch / Sensitivity object used for several make_lists / make_arguments / "
                 "model_mappers / make_jobs / fit (resp. _lists / _perturb_models / run) calls with number_of_steps, the number of grid "
                 "priors, their limits, limit_scale and the model changed between uses -- every use is checked as a single use, against "
                 "a fresh object and against the state-machine model); a case is non-trivial when n >= 2 (count: n >= 3) and, for ordered kinds, the completion order "
@@ -1344,13 +1344,18 @@ MANIFEST = {
             "disjoint cells; reported limits/centres are those of the cell fitted; results keyed by job number for every completion "
             "order incl. re-delivery (latest wins) and paths pairing; sensitivity counts, positional sorting, unit cells for "
             "limit_scale = 1 equal to the grid-search cells and bounded for every limit_scale >= 0; shape under a 1/2-accurate root; "
-            "binary64 count on 1..131072 by a kernel-checked sweep; the grid-search / sensitivity OBJECT as a state machine with an "
+            "binary64 count on 1..131072 by a kernel-checked sweep; SHARING PATTERNS: the perturbation model as attribute slots (fixed / prior id, one prior in "
+            "several slots), the number of grid dimensions = number of DISTINCT priors, Sensitivity.shape has that many entries and IS the shape of the lattice "
+            "_lists enumerates for int and tuple step counts (product = cells, every point d coordinates), a per-attribute shape refuted whenever a prior is "
+            "shared, grid priors named twice give one dimension; the grid-search / sensitivity OBJECT as a state machine with an "
             "explicit lattice cache: every answer of every history of uses equals a fresh object's answer for the current "
             "(n, d, limits) for the code's policy (no cache) and for any sound cache, refuted for a cache keyed by d alone) plus bit-exact vm_compute correspondence of the model with the "
             "running code and a direct property oracle on every generated case (single uses and histories of one reused object with attributes "
             "changed between uses, each use also compared with a fresh object), where the likelihood of every fit is a function of "
             "its cell so that every per-cell list (samples, log_likelihoods, native, log_evidences, attribute_grid, builder results "
-            "and paths, csv columns by header, sensitivity base/perturbed samples, folder labels) is tied to cell k",
+            "and paths, csv columns by header, sensitivity base/perturbed samples, folder labels) is tied to cell k; every seed runs real Sensitivity.run() on perturbation models with a prior shared by 2-3 "
+            "attributes (int n >= 2, n = 1, tuple) and real GridSearch fits whose grid prior also sits on a second path and is named twice in grid_priors, and "
+            "observes Sensitivity.shape, the lattice, prior_count, headers, shape / len / .native shape / row-major layout of EVERY per-cell GridList",
     "note": "Trusted: Coq kernel + vm_compute, primitive floats, the translator pyexpr2coq.py, the correspondence harness; libm pow is an "
             "oracle (binary64 shape swept by the harness on d<=6, n^d<=1e6); tiling is proved over exact rationals (binary64 cells are "
             "compared bit-for-bit by correspondence only); UniformPrior.value_for is modelled as lo+u*(hi-lo) without its 14-decimal "
